@@ -14,9 +14,11 @@ import Golib.HMap.Plain
 import Golib.HMap.Wire
 import Golib.HMap.Types
 import Golib.HMap.Multi
+import Golib.HMap.Enum
+import Golib.HMap.Proto
 import Driver.Common
 
-open HMap Drv
+open HMap Drv HMap.Proto
 
 structure Sess (K : Type) [DecidableEq K] where
   d : PDesc K Int
@@ -24,11 +26,12 @@ structure Sess (K : Type) [DecidableEq K] where
   thr : Nat → Nat
   spec : PS K Int
   conc : PMap K Int
+  sv : Int → String
 
 inductive St
   | none
   | ints (s : Sess Int)
-  | strs (s : Sess String)
+  | strs (s : Sess BKey)
 
 def showList (f : α → String) (xs : List α) : String :=
   if xs.isEmpty then "[]" else ",".intercalate (xs.map f)
@@ -37,33 +40,31 @@ def sortEnts [LT K] [DecidableRel (α := K) (· < ·)] (es : List (K × Int)) : 
   es.mergeSort (fun a b => !decide (b.1 < a.1))
 
 /-- canonical form of an output: enumerations sorted by key (values: by the key they belong to) -/
-def showOut [LT K] [DecidableRel (α := K) (· < ·)] (sk : K → String) (ents : List (K × Int)) : Out K Int → String
+def showOut [LT K] [DecidableRel (α := K) (· < ·)] (sk : K → String) (sv : Int → String) (ents : List (K × Int)) : Out K Int → String
   | .unit => "u"
   | .none => "-"
-  | .val v => toString v
+  | .val v => sv v
   | .key k => sk k
   | .bool b => if b then "T" else "F"
   | .nat n => toString n
   | .keys _ => showList sk ((sortEnts ents).map (·.1))
-  | .vals _ => showList toString ((sortEnts ents).map (·.2))
-  | .ents _ => showList (fun e => sk e.1 ++ "=" ++ toString e.2) (sortEnts ents)
+  | .vals _ => showList sv ((sortEnts ents).map (·.2))
+  | .ents _ => showList (fun e => sk e.1 ++ "=" ++ sv e.2) (sortEnts ents)
 
-def showStrKey (s : String) : String := if s.isEmpty then "~" else s
-def parseStrKey (s : String) : Option String := if s == "~" then some "" else some s
 
 def parsePair (pk : String → Option K) (s : String) : Option (K × Int) :=
   match s.splitOn "=" with
-  | [k, v] => do some ((← pk k), (← parseInt v))
+  | [k, v] => do some ((← pk k), (← parseVal v))
   | _ => none
 
 def parseOp [LT K] [DecidableRel (α := K) (· < ·)] (pk : String → Option K) (ws : List String) : Option (POp K Int) :=
   match ws with
-  | ["P", k, v] => do some (.put (← pk k) (← parseInt v))
-  | ["A", k, v] => do some (.add (← pk k) (← parseInt v))
-  | ["AE", k, v] => do some (.addIfExist (← pk k) (← parseInt v))
+  | ["P", k, v] => do some (.put (← pk k) (← parseVal v))
+  | ["A", k, v] => do some (.add (← pk k) (← parseVal v))
+  | ["AE", k, v] => do some (.addIfExist (← pk k) (← parseVal v))
   | ["G", k] => do some (.get (← pk k))
   | ["CK", k] => do some (.containsKey (← pk k))
-  | ["CV", v] => do some (.containsValue (← parseInt v))
+  | ["CV", v] => do some (.containsValue (← parseVal v))
   | ["R", k] => do some (.remove (← pk k))
   | ["C"] => some .clear
   | ["SZ"] => some .size
@@ -89,8 +90,9 @@ def stepSess [DecidableEq K] [LT K] [DecidableRel (α := K) (· < ·)]
   | some op =>
     let (sp, o1) := PS.step s.d s.spec op
     let (cm, o2) := PMap.step s.hash s.thr s.d s.conc op
-    let t1 := showOut sk sp.ents o1
-    let t2 := showOut sk cm.tab.entries o2
+    -- the CodeModel's enumerations are produced by the enumerator *object* (HasMoreElements / Next until exhausted)
+    let t1 := showOut sk s.sv sp.ents o1
+    let t2 := showOut sk s.sv (PEnum.drain cm.tab cm.count cm.tab.openEnum) o2
     let ok := t1 == t2 && (!isEnum op || (decide (cm.count = sp.ents.length) && decide (cm.max = sp.max)))
     ({ s with spec := sp, conc := cm }, if ok then t1 else "MISMATCH spec=" ++ t1 ++ " model=" ++ t2)
 
@@ -111,18 +113,16 @@ def intHash : String → Option (Int → Nat)
   | "poly" => some (fun k => ((k * 31 + 17) % 4294967296).toNat)
   | _ => none
 
-def polyStr (s : String) : Nat := s.toList.foldl (fun h c => (31 * h + c.toNat) % 18446744073709551616) 0
-
-def strHash : String → Option (String → Nat)
-  | "id" | "poly" => some polyStr
-  | "mod3" => some (fun s => polyStr s % 3)
+def strHash : String → Option (BKey → Nat)
+  | "id" | "poly" => some bytesHash
+  | "mod3" => some (fun s => bytesHash s % 3)
   | "const" => some (fun _ => 7)
   | _ => none
 
 def newSess [DecidableEq K] (t : TypeDesc) (isEmpty : K → Bool)
     (hash : K → Nat) (cap : Nat) (tbl : List (Nat × Nat)) : Sess K :=
   let d : PDesc K Int := { t.descOf isEmpty with addFreshNew := t.addFreshNew }
-  { d := d, hash := hash, thr := thrOf tbl, spec := {}, conc := PMap.new (thrOf tbl) cap }
+  { d := d, hash := hash, thr := thrOf tbl, spec := {}, conc := PMap.new (thrOf tbl) cap, sv := showVal t }
 
 def answer1 (st : St) (ws : List String) : St × String :=
   match ws with
@@ -136,7 +136,7 @@ def answer1 (st : St) (ws : List String) : St × String :=
         | none => (st, "bad-new")
       else
         match strHash hk with
-        | some h => (.strs (newSess t (fun (s : String) => s.isEmpty) h cap tbl), "ok")
+        | some h => (.strs (newSess t (fun (s : BKey) => s.isEmpty) h cap tbl), "ok")
         | none => (st, "bad-new")
     | _, _, _ => (st, "bad-new")
   | ["TB"] =>
@@ -156,7 +156,7 @@ def answer1 (st : St) (ws : List String) : St × String :=
     match st with
     | .none => (st, "no-session")
     | .ints s => let (s', o) := stepSess parseInt toString s ws; (.ints s', o)
-    | .strs s => let (s', o) := stepSess parseStrKey showStrKey s ws; (.strs s', o)
+    | .strs s => let (s', o) := stepSess parseKey showKey s ws; (.strs s', o)
 
 /-- `dst.PutAll(src)`: every entry of the source, in the order its enumerator yields them, is put into the target -/
 def putAllFrom (src : St) (dst : St) (_ : Unit) : St × String :=
